@@ -78,11 +78,46 @@ CHUNK = 1
 HORIZON = 40
 # the six reported quantities computed lazily (and memoised) from the moments of the samples, in the canonical reading order
 QUANT = ("ml", "vl", "mean_level_l", "var_level_l", "kurtosis", "consistency_check")
+# the order in which the library's convergence scripts read them (consistency_check first)
+SCRIPTS_ORDER = ("consistency_check", "kurtosis", "var_level_l", "vl", "mean_level_l", "ml")
 U = 2.220446049250313e-16
+
+
+# (start, end, class) of the calls of the public accessors of the stored samples; "n" = the number of samples of the level.
+# "start-end-tie": the exact ties of the range (end 0, start = end, start = n, end = n, start 0 given explicitly, negative
+# start); "numpy-int-arguments": level / start / end given as numpy integer scalars.
+ACCESSOR_MENU = (
+    (None, None, "whole"), (1, None, "start-end"), (None, -1, "start-end"), (0, 1, "start-end"), (1, 3, "start-end"),
+    (None, 0, "start-end-tie"), (2, 2, "start-end-tie"), ("n", None, "start-end-tie"), (None, "n", "start-end-tie"),
+    (0, None, "start-end-tie"), (-2, None, "start-end-tie"), (0, 2, "numpy-int-arguments"),
+)
 
 
 class Horizon(Exception):
     pass
+
+
+class _Truncated:
+    """The reference model as it was when a mid-run copy was taken: the first counts[l] samples of every level."""
+
+    def __init__(self, rec, counts):
+        self.samples = {l: list(rec.samples.get(l, []))[:n] for l, n in counts.items()}
+        self.regime_log = list(rec.regime_log)
+
+
+def copy_of(obj, kind):
+    """A copy of a library object through one of the public copy protocols."""
+    import copy
+
+    if kind == "copy":
+        return copy.copy(obj)
+    if kind == "deepcopy":
+        return copy.deepcopy(obj)
+    if kind == "dill":
+        import dill
+
+        return dill.loads(dill.dumps(obj))
+    raise ValueError(kind)
 
 
 def configs(thorough):
@@ -148,11 +183,32 @@ def cases(tier):
                 for payoff in ("forward", "call2"):
                     fixed.append({"sub": "fixed", "L0": L0, "Lmax": Lmax, "N0": N0, "cv": cv, "payoff": payoff, "df": 0.9,
                                   "notional": 2.5, "bound": 2 if thorough else 1, "shard": [0, 1]})
+    # degenerate size: no sample at all (one run each; judged: counts, stored rows, accessors, nothing raises when read)
+    for (L0, Lmax) in ((0, 0), (1, 3)):
+        for cv in ("none", "one"):
+            for payoff in ("forward", "call2"):
+                fixed.append({"sub": "fixed", "L0": L0, "Lmax": Lmax, "N0": 0, "cv": cv, "payoff": payoff, "df": 0.9,
+                              "notional": 2.5, "bound": 1, "shard": [0, 1]})
+    # payoff dimension and the form of the strike argument: scalar float / list of one / tuple of two / array of three
+    for (L0, Lmax, N0) in (((0, 1, 2), (2, 3, 2), (1, 3, 7)) if thorough else ((0, 1, 2), (2, 3, 2))):
+        for cv in ("none", "one"):
+            for payoff in ("calls", "call1", "call2t", "call3"):
+                fixed.append({"sub": "fixed", "L0": L0, "Lmax": Lmax, "N0": N0, "cv": cv, "payoff": payoff, "df": 0.9,
+                              "notional": 2.5, "bound": 1, "shard": [0, 1]})
+    # many levels (all but the first added by one extend) and a sample size beyond the chunk size of the simulated pool;
+    # the integer arguments as numpy scalars; the spot-statistics option of the configuration
+    for extra in ({"L0": 0, "Lmax": 7, "N0": 3}, {"L0": 2, "Lmax": 5, "N0": 33}, {"L0": 1, "Lmax": 3, "N0": 7, "ints": "int64"},
+                  {"L0": 0, "Lmax": 1, "N0": 2, "ints": "int32"}, {"L0": 1, "Lmax": 3, "N0": 7, "spot": True},
+                  {"L0": 0, "Lmax": 0, "N0": 1, "spot": True}):
+        for payoff in ("forward", "call2"):
+            fixed.append(dict({"sub": "fixed", "cv": "none", "payoff": payoff, "df": 0.9, "notional": 2.5, "bound": 1,
+                               "shard": [0, 1]}, **extra))
     out += fixed
     # NOTE: C06 re-uses the cases above whose sub is exactly "adaptive"; everything below has another sub.
     # the multiprocessing branch of compute_level_l (nb_of_processes != 1, None included) on the simulated pool
     for c in configs(False):
-        out.append(dict(c, sub="adaptive-pool", procs=2, bound=1, shard=[0, 1]))
+        if thorough or c["rates"] == "given":
+            out.append(dict(c, sub="adaptive-pool", procs=2, bound=1, shard=[0, 1]))
     for c in configs(False):
         if c["cv"] == "none" and c["payoff"] == "forward" and c["rmse"] == 0.5 and c["N0"] == 5 and c["rates"] == "given":
             for procs in ((None, 3) if thorough else (None,)):
@@ -177,6 +233,41 @@ def cases(tier):
         if c["N0"] == 7 and c["cv"] == "none" and c["payoff"] == "forward":
             for prior in (("fixed", "adaptive") if c["L0"] >= 2 else ("fixed",)):
                 out.append(dict(c, sub="fixed-reprice", prior=prior))
+    # degenerate sizes of the adaptive algorithm: no initial sample (the engine's "initial number of paths too low" exit) and
+    # one initial sample (every level variance is 0: the run adds levels with their single mandatory sample up to the maximum)
+    for N0 in (0, 1):
+        for (L0, Lmax) in ((2, 2), (2, 4)):
+            for (cv, payoff) in (("none", "forward"), ("one", "forward"), ("none", "call2")):
+                for procs in (1, 2):
+                    if (cv, payoff) != ("none", "forward") and (procs == 2 or Lmax == 2) and not thorough:
+                        continue
+                    c = {"sub": "adaptive-degenerate", "L0": L0, "Lmax": Lmax, "N0": N0, "rmse": 0.5, "rates": "given", "cv": cv,
+                         "payoff": payoff, "df": 0.9, "notional": 2.5, "bound": 1, "shard": [0, 1]}
+                    out.append(dict(c, procs=procs) if procs != 1 else c)
+    # options and argument forms of the adaptive entry point: spot statistics, numpy integer scalars, payoff dimensions
+    c0 = {"L0": 2, "Lmax": 3, "N0": 5, "rmse": 0.5, "rates": "given", "cv": "none", "payoff": "forward", "df": 0.9,
+          "notional": 2.5, "bound": 1, "shard": [0, 1]}
+    for extra in ({"spot": True}, {"spot": True, "procs": 2, "payoff": "call2"}, {"ints": "int64"}, {"payoff": "call3", "cv": "one"},
+                  {"payoff": "calls"}, {"payoff": "call1", "procs": 2}):
+        out.append(dict(c0, sub="adaptive-options", **extra))
+    # copies of the Engine object: the engine that prices is a deepcopy / dill round trip of the constructed one, of one that
+    # has priced before, or one taken while the original was pricing (used after the original has finished)
+    for kind, when, prior, procs in (("deepcopy", "fresh", None, 1), ("dill", "fresh", None, 2), ("deepcopy", "after-prior", "adaptive", 1),
+                                     ("dill", "after-prior", "fixed", 1), ("deepcopy", "midrun-of-prior", "adaptive", 2),
+                                     ("dill", "midrun-of-prior", "adaptive", 1)):
+        c = dict(c0, sub="adaptive-engine-copy", engine_copy=f"{kind}:{when}")
+        if prior:
+            c["prior"] = prior
+        if procs != 1:
+            c["procs"] = procs
+        out.append(c)
+    for kind, when, prior in (("deepcopy", "fresh", None), ("dill", "fresh", None), ("dill", "after-prior", "fixed"),
+                              ("deepcopy", "midrun-of-prior", "adaptive")):
+        c = {"sub": "fixed-engine-copy", "L0": 2, "Lmax": 3, "N0": 7, "cv": "none", "payoff": "forward", "df": 0.9, "notional": 2.5,
+             "bound": 1, "shard": [0, 1], "engine_copy": f"{kind}:{when}"}
+        if prior:
+            c["prior"] = prior
+        out.append(c)
     # every order of reading the six moment-based reported quantities (sharded by the first one)
     base = {"L0": 2, "Lmax": 4, "N0": 5, "rmse": 0.3, "rates": "given", "cv": "none", "payoff": "forward", "df": 0.9,
             "notional": 2.5, "bound": 0, "shard": [0, 1]}
@@ -196,16 +287,22 @@ def build_engine(case, chooser):
     rec = D.Recorder(chooser)
     coupling = D.ScriptedCoupling(rec, df=case["df"])
     product = D.make_product(case["payoff"], notional=case["notional"])
-    cv = D.make_control_variates(case["cv"], notional=case["notional"], dim=1 if case["payoff"] == "forward" else 2)
+    cv = D.make_control_variates(case["cv"], notional=case["notional"], dim=D.payoff_dim(case["payoff"]))
     rates = ConvergenceRates(alpha=1.0, beta=2.0, gamma=1.0) if case.get("rates", "given") == "given" else ConvergenceRates()
+    # argument form of the integer arguments: Python int (usual) or numpy integer scalars
+    as_int = {"python": int, "int64": np.int64, "int32": np.int32}[case.get("ints", "python")]
+    kw = {}
+    if case.get("spot"):
+        kw["activate_spot_statistics"] = True  # public option: the path managers also evaluate the modelled underlying
     conf = ConfigurationMultiLevel(
         convergence_rates=rates,
-        initial_level=case.get("L0", 2),
-        maximum_level=case["Lmax"],
-        initial_mc_paths=case["N0"],
+        initial_level=as_int(case.get("L0", 2)),
+        maximum_level=as_int(case["Lmax"]),
+        initial_mc_paths=as_int(case["N0"]),
         seed=None,
         control_variates=cv,
         nb_of_processes=case.get("procs", 1),
+        **kw,
     )
     eng = Engine(configuration=conf, coupling_process=coupling)
     return eng, rec, product, coupling
@@ -214,7 +311,7 @@ def build_engine(case, chooser):
 def ref_arrays(case, rec, level):
     """Reference payoff rows of one level: shape (n, dim, 2)."""
     lst = rec.samples.get(level, [])
-    dim = 1 if case["payoff"] == "forward" else 2
+    dim = D.payoff_dim(case["payoff"])
     out = np.zeros((len(lst), dim, 2))
     for i, (f, c) in enumerate(lst):
         out[i, :, 0] = D.payoff_ref(case["payoff"], case["notional"], case["df"], f)
@@ -226,7 +323,7 @@ def ref_arrays(case, rec, level):
 def cv_ref_arrays(case, rec, level):
     lst = rec.samples.get(level, [])
     n = len(lst)
-    dim = 1 if case["payoff"] == "forward" else 2
+    dim = D.payoff_dim(case["payoff"])
     nt, df = case["notional"], case["df"]
     if level == 0:
         out = np.zeros((n, 1, dim))
@@ -244,7 +341,7 @@ def compare_state(sh, case, rec, stats, Nl, sum_cost, where, variant, final=None
     """The C05 oracle on one observation point. Returns a short trajectory token."""
     tag = f"{variant}:{where}"
     cvk = "cv" if case["cv"] != "none" else "nocv"
-    dimk = "dim1" if case["payoff"] == "forward" else "dim2"
+    dimk = f"dim{D.payoff_dim(case['payoff'])}"
     Nl = np.asarray(Nl)
     nlev = len(Nl)
     ref_fine, ref_coarse = [], []
@@ -300,8 +397,11 @@ def compare_state(sh, case, rec, stats, Nl, sum_cost, where, variant, final=None
     try:
         p = stats.price(no_control_variates=True)
         p_ref = sum((float(np.mean(f - c)) if f.size else 0.0) for f, c in zip(ref_fine, ref_coarse))
-        # levels beyond len(Nl) that exist in statistics (should not hold samples)
-        if not core.close(p, p_ref, rtol=1e-11, atol=1e-13):
+        if not all(f.size for f in ref_fine):
+            # a level without any sample (initial_mc_paths = 0) has no sample mean: price() is read (it must not raise on a
+            # returned object) but its value is not judged
+            sh.count("price-not-judged:level-without-sample")
+        elif not core.close(p, p_ref, rtol=1e-11, atol=1e-13):
             sh.violation(f"C05:{variant}:price-differs-from-sum-of-level-means:{cvk}:{dimk}",
                          f"{tag}: price(no cv) = {p!r} but sum of per-level sample means = {p_ref!r}",
                          {"Nl": Nl.tolist(), "regimes": rec.regime_log})
@@ -325,12 +425,17 @@ def compare_state(sh, case, rec, stats, Nl, sum_cost, where, variant, final=None
         # the public accessors of the stored samples, whole and with the start / end options
         for level in range(min(nlev, len(stats.mc_statistics))):
             ref = ref_arrays(case, rec, level)
+            n_l = ref.shape[0]
             for comp, col, fun in (("fine", 0, stats.simulation_payoff_with_fine_process),
                                    ("coarse", 1, stats.simulation_payoff_with_coarse_process)):
-                for (a0, b0) in ((None, None), (1, None), (None, -1), (0, 1), (1, 3)):
-                    kind = "whole" if (a0, b0) == (None, None) else "start-end"
+                for (a0, b0, kind) in ACCESSOR_MENU:
+                    a0 = n_l if a0 == "n" else a0
+                    b0 = n_l if b0 == "n" else b0
+                    lv = level
+                    if kind == "numpy-int-arguments":
+                        lv, a0, b0 = np.int64(level), np.int64(a0), np.int32(b0)
                     try:
-                        g = np.asarray(fun(level, a0, b0, no_control_variates=True), dtype=float)
+                        g = np.asarray(fun(lv, a0, b0, no_control_variates=True), dtype=float)
                     except Exception as e:  # noqa
                         sh.violation(f"C05:{variant}:payoff-accessor-raises:{comp}:{kind}:{type(e).__name__}", f"{tag}: {e!r}", None)
                         continue
@@ -477,7 +582,11 @@ def compare_reported(sh, res, refm, order, keyfmt, tag, detail, stop_at_first=Fa
 
 def variant_of(case):
     entry = "adaptive" if case["sub"].startswith("adaptive") else "fixed"
-    return entry + ("-pool" if case.get("procs", 1) != 1 else "") + (f"-after-{case['prior']}" if case.get("prior") else "")
+    out = entry + ("-pool" if case.get("procs", 1) != 1 else "") + (f"-after-{case['prior']}" if case.get("prior") else "")
+    if case.get("engine_copy"):
+        kind, when = case["engine_copy"].split(":")
+        out += f"-on-{kind}-of-engine-{when}"
+    return out
 
 
 class _DefaultAnswers:
@@ -489,9 +598,11 @@ def price(eng, product, entry, rmse):
     return eng.price(product, rmse) if entry == "adaptive" else eng.price_with_constant_mc_paths_and_level(product)
 
 
-def run_once(sh, case, chooser):
+def run_once(sh, case, chooser, extras=False):
     """One complete execution; returns trajectory (tuple), outcome label, the recorder and - for a run that returned - what
-    the reading-history sub-checks need (statistics object, final Nl / sum_cost, numpy reference of the reported quantities)."""
+    the reading-history sub-checks need (statistics object, final Nl / sum_cost, numpy reference of the reported quantities).
+    With `extras` the copies sub-checks run too: copies of the statistics object taken at every set_mlmc_results of the run
+    (judged after the run against the samples simulated until then) and at return."""
     import contextlib
     import warnings
 
@@ -501,13 +612,28 @@ def run_once(sh, case, chooser):
     variant = variant_of(case)
     adaptive = variant.startswith("adaptive")
     pool = case.get("procs", 1) != 1
+    ec_kind, ec_when = case["engine_copy"].split(":") if case.get("engine_copy") else (None, None)
     traj = []
     last = {}
+    snaps = []
     orig = MLMCStatistics.set_mlmc_results
 
     def observed(self, Nl, sum_cost):
+        given = (np.array(Nl, copy=True), np.array(sum_cost, copy=True))
         orig(self, Nl, sum_cost)
-        last["Nl"], last["sum_cost"] = np.array(Nl, copy=True), np.array(sum_cost, copy=True)
+        if not (np.array_equal(given[0], np.asarray(Nl)) and np.array_equal(given[1], np.asarray(sum_cost))):
+            sh.violation(f"C05:{variant}:set_mlmc_results-modifies-the-arrays-it-is-given",
+                         f"{variant}: Nl {given[0].tolist()} -> {np.asarray(Nl).tolist()}, sum_cost {given[1].tolist()} -> "
+                         f"{np.asarray(sum_cost).tolist()}", {"regimes": rec.regime_log})
+        last["Nl"], last["sum_cost"] = given
+        if extras and len(snaps) < 6:
+            # a copy of the statistics object (with its unread results object) mid-run, judged after the run
+            kind = ("deepcopy", "dill")[len(traj) % 2]
+            counts = {l: len(v) for l, v in rec.samples.items()}
+            try:
+                snaps.append((kind, copy_of(self, kind), given[0], counts))
+            except Exception as e:  # noqa
+                sh.violation(f"C05:{variant}:copy-of-statistics-raises:midrun:{kind}:{type(e).__name__}", f"{variant}: {e!r}", None)
         traj.append(compare_state(sh, case, rec, self, Nl, sum_cost, f"set_mlmc_results#{len(traj)}", variant))
 
     # horizon guard through the recorder's chooser
@@ -526,10 +652,28 @@ def run_once(sh, case, chooser):
         with np.errstate(all="ignore"), warnings.catch_warnings():
             warnings.simplefilter("ignore")
             with (D.pool_installed() if pool else contextlib.nullcontext()) as pools:
+                if ec_when == "fresh":
+                    # history: the Engine object that prices is a copy of the one that was constructed
+                    eng = copy_of(eng, ec_kind)
                 if case.get("prior"):
                     # history: this Engine object has priced before; the reference model starts again afterwards
                     rec.chooser = _DefaultAnswers()
-                    price(eng, product, case["prior"], 0.3)
+                    grabbed = []
+                    if ec_when == "midrun-of-prior":
+                        def grab(self, Nl, sum_cost):
+                            orig(self, Nl, sum_cost)
+                            if not grabbed:
+                                grabbed.append(copy_of(eng, ec_kind))
+
+                        MLMCStatistics.set_mlmc_results = grab
+                    try:
+                        price(eng, product, case["prior"], 0.3)
+                    finally:
+                        MLMCStatistics.set_mlmc_results = orig
+                    if ec_when == "after-prior":
+                        eng = copy_of(eng, ec_kind)
+                    elif ec_when == "midrun-of-prior":
+                        eng = grabbed[0]  # the copy taken while the original was pricing; the original has finished since
                     for d in (rec.samples, rec.batches, rec.pending, rec.regime):
                         d.clear()
                     for lst in (rec.regime_log, rec.next_level_calls, rec.simulate_levels, rec.events):
@@ -544,10 +688,16 @@ def run_once(sh, case, chooser):
                 except Horizon:
                     outcome = "horizon"
                     sh.count("horizon-runs")
+                except Exception:  # noqa
+                    if case["N0"] != 0:
+                        raise
+                    # degenerate size: a tree that refuses initial_mc_paths = 0 reports nothing that could be wrong
+                    outcome = "rejected"
+                    sh.count("degenerate-size-rejected")
                 if pool:
                     sh.count("pool-map-calls", len(pools.log))
                     sh.count("pool-chunks", sum(c for (_, _, c) in pools.log))
-                    if stats is not None and not pools.log:
+                    if stats is not None and not pools.log and case["N0"] != 0:
                         sh.violation(f"C05:{variant}:harness:pool-branch-not-taken",
                                      f"nb_of_processes={case.get('procs')!r} but the engine never used the pool", None)
     finally:
@@ -562,7 +712,21 @@ def run_once(sh, case, chooser):
                 last["sum_cost"] = np.array([float(2 ** l) * len(rec.samples.get(l, [])) for l in range(len(Nl_final))])
             final = {"stats": stats, "variant": variant, "Nl": last["Nl"], "sum_cost": last["sum_cost"],
                      "regimes": rec.regime_log}
+            copies = []
+            if extras:
+                # copies of the returned statistics object, taken while its results object is still unread
+                for kind in ("copy", "deepcopy", "dill"):
+                    try:
+                        copies.append((kind, copy_of(stats, kind)))
+                    except Exception as e:  # noqa
+                        sh.violation(f"C05:{variant}:copy-of-statistics-raises:return:{kind}:{type(e).__name__}", f"{variant}: {e!r}", None)
             compare_state(sh, case, rec, stats, Nl_final, None, "return", variant, final)
+            for kind, cp in copies:
+                compare_state(sh, case, rec, cp, np.asarray(cp.mlmc_results.Nl), None, "return", f"{variant}:{kind}-of-statistics")
+                sh.count("statistics-copies")
+            for kind, cp, Nl_then, counts in snaps:
+                compare_state(sh, case, _Truncated(rec, counts), cp, Nl_then, None, "return", f"{variant}:midrun-{kind}-of-statistics")
+                sh.count("statistics-copies")
     return tuple(traj), outcome, rec, final
 
 
@@ -576,23 +740,28 @@ def check_case(sh, case):
     import warnings
 
     trajectories = set()
-    state = {"first": True, "held": None}
+    state = {"first": True, "held": None, "copied": False}
     compared = [0]
+    degenerate = [0]
 
     def read_held():
         # (b) the results object left unread by the previous run, read now that another run has been priced and read
         held = state["held"]
         if held is not None:
             res, refm, variant, regimes, wrong = held
-            compare_reported(sh, res, refm, ("consistency_check", "kurtosis", "var_level_l", "vl", "mean_level_l", "ml"),
+            compare_reported(sh, res, refm, SCRIPTS_ORDER,
                              f"C05:{variant}:reported-%s-changed-by-a-later-run", f"{variant}:read-after-the-next-run",
                              {"regimes": regimes}, unjudged=wrong)
             compared[0] += 1
         state["held"] = None
 
     def run(ch):
-        traj, outcome, rec, final = run_once(sh, case, ch)
+        extras = not state["copied"] and case.get("shard", [0, 1])[0] == 0  # first run of the case: copies sub-checks
+        traj, outcome, rec, final = run_once(sh, case, ch, extras=extras)
+        state["copied"] = True
         trajectories.add((traj, outcome))
+        if case["N0"] == 0 and final is not None:
+            degenerate[0] += 1
         sh.count("runs")
         sh.outcome((traj, outcome))
         if len(trajectories) <= 2 and case.get("N0") == 5 and case.get("payoff") == "forward" and case.get("cv") == "none":
@@ -624,6 +793,31 @@ def check_case(sh, case):
                     sh.count("reading-orders")
                     if bad and "orders_first" not in case:
                         break
+                # (e) copies of a results object that has been read in part (nothing / what the engine reads / everything)
+                for kind in ("copy", "deepcopy", "dill"):
+                    for k in (0, 2, len(QUANT)):
+                        res = fresh_results(final)
+                        compare_reported(sh, res, refm, QUANT[:k], f"C05:{variant}:reported-%s-depends-on-the-reading-order",
+                                         f"{variant}:fresh-results", detail, stop_at_first=True, unjudged=QUANT)
+                        try:
+                            cp = copy_of(res, kind)
+                        except Exception as e:  # noqa
+                            sh.violation(f"C05:{variant}:copy-of-results-raises:{kind}:{type(e).__name__}", f"{variant}: {e!r}", detail)
+                            continue
+                        key = f"C05:{variant}:reported-%s-differs-on-a-{kind}-of-the-results:read-{k}-before"
+                        bad = compare_reported(sh, cp, refm, SCRIPTS_ORDER, key, f"{variant}:{kind}-of-results", detail,
+                                               unjudged=final["wrong"])
+                        for name in ("Nl", "cl", "cost"):
+                            a, b = np.asarray(getattr(cp, name), dtype=float), np.asarray(getattr(res, name), dtype=float)
+                            sh.count("evaluations")
+                            if a.shape != b.shape or not np.array_equal(a, b, equal_nan=True):
+                                sh.violation(key % name, f"{variant}: {kind} of the results object reports {name} = {a.tolist()}, "
+                                             f"the original {b.tolist()}", detail)
+                        if not bad:
+                            compare_reported(sh, res, refm, QUANT, f"C05:{variant}:reported-%s-changed-by-reading-a-{kind}-of-the-results",
+                                             f"{variant}:original-after-{kind}", detail, unjudged=final["wrong"])
+                        sh.count("results-copies")
+                        compared[0] += 1
             state["first"] = False
             state["held"] = (fresh_results(final), refm, variant, final["regimes"], final["wrong"])
 
@@ -638,5 +832,6 @@ def check_case(sh, case):
     sh.transitions += ex.points_total
     sh.count("evaluations", 0)
     sh.cls(f"procs:{case.get('procs', 1)!r}")
-    if len(trajectories) >= 2 or case["sub"].startswith("fixed") or ("orders_first" in case and compared[0] >= 120):
+    if (len(trajectories) >= 2 or case["sub"].startswith("fixed") or ("orders_first" in case and compared[0] >= 120)
+            or degenerate[0]):
         sh.nontriv()
